@@ -606,7 +606,7 @@ def check_pa_methods(res, facts, owner, prop):
             res.ob('R-PHASE', inst0 + ' tick() adds the increment modulo 2^T', ok, 'accumulator after tick = %r; expected (acc + increment) mod 2^%d' % (got, total), where_of(facts, PAF + 'tick'), key='R-PHASE:tick:' + inst0)
             ch = set(changed_fields(pre, post))
             res.ob('R-WRITESET', inst0 + ' tick() writes', ch <= {'accumulator', 'last_accumulator', 'rolled_over'}, 'changed %s' % sorted(ch), where_of(facts, PAF + 'tick'), key='R-WRITESET:tick:' + inst0)
-    if prop != 'C11':
+    if prop not in ('C11', 'C10'):
         return n
     # reset()
     it = dds.interp()
@@ -638,11 +638,14 @@ def check_pa_methods(res, facts, owner, prop):
             got = post.get('accumulator').term if o.status == 'returned' else None
             exp = t_f2i(Poly.const(mask) * t_frem(absp, ONE, o.ctx), 0, 2 ** 32 - 1, o.ctx)
             ch = set(changed_fields(pre, post))
-            res.ob('R-PHASE', inst0 + ' set_phase|' + part, got == exp and ch <= {'accumulator', 'last_accumulator', 'rolled_over'},
-                   'accumulator after set_phase = %r; expected trunc(mask * (|p| mod 1)); changed %s' % (got, sorted(ch)), where_of(facts, PAF + 'set_phase'), key='R-PHASE:set_phase:%s:%s' % (inst0, part))
+            if prop == 'C11':
+                res.ob('R-PHASE', inst0 + ' set_phase|' + part, got == exp and ch <= {'accumulator', 'last_accumulator', 'rolled_over'},
+                       'accumulator after set_phase = %r; expected trunc(mask * (|p| mod 1)); changed %s' % (got, sorted(ch)), where_of(facts, PAF + 'set_phase'), key='R-PHASE:set_phase:%s:%s' % (inst0, part))
             if got is not None:
                 lo, hi = o.ctx.rng(got)
                 res.ob('R-PHASE', inst0 + ' set_phase keeps acc <= mask|' + part, lo >= 0 and hi <= mask, 'accumulator in [%s,%s]' % (lo, hi), where_of(facts, PAF + 'set_phase'), key='R-PHASE:set_phase-inv:%s:%s' % (inst0, part))
+    if prop != 'C11':
+        return n
     # set_frequency(f): increment' = trunc(2^T * f / fs); nothing else (no phase jump)
     it = dds.interp()
     st = State()
